@@ -231,6 +231,14 @@ func CmdCheck(args []string) int {
 				trusted["trusted (unverified) contract "+shortKey(u)+": "+c.Trusted] = true
 			}
 		}
+		for _, a := range r.AxiomsUsed {
+			if strings.HasPrefix(a, "assumed axiom") {
+				trusted[a+" (a `lemma trusted`: its statement is taken as a fact)"] = true
+			}
+		}
+		for _, in := range r.Intrinsics {
+			trusted["semantics coded in the engine (not a contract): "+in] = true
+		}
 		for _, n := range r.Notes {
 			notes = append(notes, sk+": "+n)
 		}
